@@ -186,9 +186,29 @@ func getParentMethodT(
 	isStatic bool,
 ) *T {
 
+	return getParentMethodTOnce(frame, class, method, isPrivate, isStatic, make(map[ClassNode]bool))
+}
+
+func getParentMethodTOnce(
+	frame string,
+	class string,
+	method string,
+	isPrivate bool,
+	isStatic bool,
+	visited map[ClassNode]bool,
+) *T {
+
 	classNode := ClassNode{Frame: frame, Class: class}
 
 	for _, parentNode := range parentNodes(classNode) {
+		// (see getParentValueTOnce; the include/extend flag of the edge is
+		// part of what was visited)
+		if visited[parentNode] {
+			continue
+		}
+
+		visited[parentNode] = true
+
 		var methodT *T
 		var ok bool
 
@@ -267,12 +287,13 @@ func getParentMethodT(
 		}
 
 		methodT =
-			getParentMethodT(
+			getParentMethodTOnce(
 				parentNode.Frame,
 				parentNode.Class,
 				method,
 				isPrivate,
 				isStatic,
+				visited,
 			)
 
 		if methodT != nil {
@@ -487,9 +508,28 @@ func setParentValueT(
 	isStatic bool,
 ) bool {
 
+	return setParentValueTOnce(frame, class, method, variable, t, isStatic, make(map[[2]string]bool))
+}
+
+func setParentValueTOnce(
+	frame string,
+	class string,
+	method string,
+	variable string,
+	t *T,
+	isStatic bool,
+	visited map[[2]string]bool,
+) bool {
+
 	classNode := ClassNode{Frame: frame, Class: class}
 
 	for _, parentNode := range parentNodes(classNode) {
+		if visited[[2]string{parentNode.Frame, parentNode.Class}] {
+			continue
+		}
+
+		visited[[2]string{parentNode.Frame, parentNode.Class}] = true
+
 		_, ok :=
 			TFrame[valueTFrameKey(
 				parentNode.Frame,
@@ -512,7 +552,7 @@ func setParentValueT(
 		}
 
 		ok =
-			setParentValueT(parentNode.Frame, parentNode.Class, method, variable, t, isStatic)
+			setParentValueTOnce(parentNode.Frame, parentNode.Class, method, variable, t, isStatic, visited)
 
 		if ok {
 			return true
@@ -597,9 +637,30 @@ func getParentValueT(
 	isStatic bool,
 ) *T {
 
+	return getParentValueTOnce(frame, class, method, variable, isStatic, make(map[[2]string]bool))
+}
+
+// (an ancestor reachable along several paths - a diamond of includes - is
+// searched once: the walk is linear in the number of ancestors, not
+// exponential in the depth of the lattice)
+func getParentValueTOnce(
+	frame string,
+	class string,
+	method string,
+	variable string,
+	isStatic bool,
+	visited map[[2]string]bool,
+) *T {
+
 	classNode := ClassNode{Frame: frame, Class: class}
 
 	for _, parentNode := range parentNodes(classNode) {
+		if visited[[2]string{parentNode.Frame, parentNode.Class}] {
+			continue
+		}
+
+		visited[[2]string{parentNode.Frame, parentNode.Class}] = true
+
 		t, ok :=
 			TFrame[valueTFrameKey(
 				parentNode.Frame,
@@ -614,7 +675,7 @@ func getParentValueT(
 		}
 
 		valueT :=
-			getParentValueT(parentNode.Frame, parentNode.Class, method, variable, isStatic)
+			getParentValueTOnce(parentNode.Frame, parentNode.Class, method, variable, isStatic, visited)
 
 		if valueT != nil {
 			return valueT
